@@ -125,7 +125,8 @@ def tlc(module, cfg=None, wd=None, env=None, timeout=900, workers=1, extra=None,
     own = wd is None
     if own:
         wd = workdir("tlc-" + os.path.basename(module))
-    meta = os.path.join(wd, "meta-%s-%d" % (os.path.basename(module), int(time.time() * 1000) % 100000000))
+    import uuid
+    meta = os.path.join(wd, "meta-%s-%s" % (os.path.basename(module), uuid.uuid4().hex[:12]))
     cfgp = cfg if cfg and os.path.isabs(cfg) else os.path.join(moddir, (cfg or os.path.basename(module)) + ("" if (cfg or "").endswith(".cfg") else ".cfg"))
     # TLC resolves EXTENDS relative to the spec's directory plus -DTLA-Library
     libs = os.pathsep.join([SPEC, os.path.join(SPEC, "gen"), os.path.join(SPEC, "trace"), os.path.join(SPEC, "mc")])
